@@ -32,7 +32,7 @@ import random
 from harness import core
 
 META = {
-    "ops": "date,api,cal,scan,parse,cells",
+    "ops": "date,api,hist,cal,scan,parse,cells",
     "driver": "drv_date",
     "translators": ["date"],
     "technique": "Lean 4 proof (calendar arithmetic for all dates; complete-table decide over the generated format "
@@ -133,9 +133,12 @@ def iso(v, sep="T"):
 
 
 def impl_date(line):
+    """route bits: 1 lemma as ISO string, 2 rtime as ISO string, 4 nat through .nat(), 8 'T' separator,
+    16 built with an explicit lang= while the OTHER language is current (and realized there),
+    32 built while its language is current, realized after switching to the other language"""
     P = setup()
     py = P["py"]
-    (py.loadEn if line["lang"] == "en" else py.loadFr)()
+    same, other = (py.loadEn, py.loadFr) if line["lang"] == "en" else (py.loadFr, py.loadEn)
     route = line.get("route", 0)
     f = line["f"]
     opts = {name: bool((f >> i) & 1) for i, name in enumerate(FIELDS)}
@@ -147,14 +150,96 @@ def impl_date(line):
     lemma = iso(line["dt"], "T" if route & 8 else " ") if route & 1 else datetime.datetime(*line["dt"])
 
     def go():
-        t = py.DT(lemma).dOpt(opts)
+        if route & 16:
+            other()
+            t = py.DT(lemma, lang=line["lang"]).dOpt(opts)
+        else:
+            same()
+            t = py.DT(lemma).dOpt(opts)
         if route & 4:
             t = t.nat(line["nat"])
+        if route & 32:
+            other()
         return t.realize()
     ans, w = quiet(go)
     if w:
         ans["w"] = w
     return ans
+
+
+def hist_states(line):
+    """the option state (as a `date` line) at each realize step of a well-formed history, tracked by the harness"""
+    st = {"f": 127, "nat": True, "det": True, "rt": None}
+    out = []
+    for step in line["steps"]:
+        if step[0] == "realize":
+            out.append({"op": "date", "lang": line["lang"], "dt": line["lemma"]["dt"], "f": st["f"], "nat": st["nat"],
+                        "det": st["det"], "rt": st["rt"], "route": 0})
+        elif step[0] == "nat":
+            st["nat"] = step[1]
+        else:
+            for k, v in step[1]:
+                if k in FIELDS:
+                    st["f"] = (st["f"] | (1 << FIELDS.index(k))) if v else (st["f"] & ~(1 << FIELDS.index(k)))
+                elif k == "rtime":
+                    st["rt"] = None if v is False else v["dt"]
+                else:
+                    st[k] = v
+    return out
+
+
+def impl_hist(line):
+    """one DT object; `realize` steps are d.realize() or (via[i] == 1) the realization of ONE sentence S(Q("k"), d)
+    built at the first such step and realized again at the later ones; the date text is what the sentence shows
+    after its first word"""
+    P = setup()
+    py = P["py"]
+    same, other = (py.loadEn, py.loadFr) if line["lang"] == "en" else (py.loadFr, py.loadEn)
+    outs = []
+    P["warns"] = 0
+    old = sys.stderr
+    sys.stderr = io.StringIO()
+    try:
+        same()
+        d = py.DT(pyval(line["lemma"]))
+        sent = [None]
+        ri = 0
+        for step in line["steps"]:
+            try:
+                if step[0] == "nat":
+                    d.nat(pyval(step[1]))
+                elif step[0] == "dOpt":
+                    d.dOpt({k: pyval(v) for k, v in step[1]})
+                else:
+                    via = line["via"][ri]
+                    ri += 1
+                    if via == 2:
+                        other()          # realized while the other language is current
+                    if via == 1:
+                        if sent[0] is None:
+                            sent[0] = py.S(py.Q("k"), d)
+                        x = sent[0].realize()
+                        if not x.startswith("K"):
+                            outs.append({"sentence": x})
+                            continue
+                        x = x[1:]
+                        if x.startswith(" "):
+                            x = x[1:]
+                        if x.endswith(". "):
+                            x = x[:-2]
+                        outs.append({"r": x})
+                    else:
+                        outs.append({"r": d.realize()})
+                    if via == 2:
+                        same()
+            except core.Infra:
+                raise
+            except Exception as e:  # noqa
+                outs.append({"err": type(e).__name__})
+                same()
+    finally:
+        sys.stderr = old
+    return {"outs": outs, "w": P["warns"]}
 
 
 def pyval(v):
@@ -232,7 +317,7 @@ def impl_cells(line):
     return {"cells": cells}
 
 
-IMPL = {"date": impl_date, "api": impl_api, "cal": impl_cal, "scan": impl_scan, "parse": impl_parse, "cells": impl_cells}
+IMPL = {"date": impl_date, "api": impl_api, "hist": impl_hist, "cal": impl_cal, "scan": impl_scan, "parse": impl_parse, "cells": impl_cells}
 
 
 def model_view(line, m, a):
@@ -402,8 +487,11 @@ def shrink(line, kind):
             c.update(mod)
             return True
         return False
-    if not still(cur, kind):          # route dependent
+    if not still(cur, kind):          # route dependent: keep only the route bits the failure needs
         cur["route"] = line.get("route", 0)
+        for bit in (1, 2, 4, 8, 32, 16):
+            if cur["route"] & bit:
+                attempt(cur, {"route": cur["route"] & ~bit})
     if cur.get("rt") is not None:
         attempt(cur, {"f": cur["f"] & 112})      # with rtime the date fields play no role
         attempt(cur, {"rt": None})
@@ -579,10 +667,24 @@ def gen_block(kind, params, seed):
                 k = rng.choice((rng.randint(-8, 8), rng.randint(-400, 400)))
                 rt = shift(date, -k) + (rng.randint(0, 23), rng.randint(0, 59), rng.randint(0, 59))
             L.append(mk(rng.choice(("en", "fr")), date, t, rng.randrange(128), rng.random() < 0.5, rng.random() < 0.6, rt,
-                        rng.randrange(16)))
+                        rng.randrange(16) | rng.choice((0, 0, 0, 16, 32))))
     elif kind == "api":
         for _ in range(params):
             L.append(gen_api(rng))
+    elif kind == "hist":
+        for _ in range(params):
+            L.append(gen_hist(rng))
+    elif kind == "lang":     # explicit lang= under the other current language / built then switched
+        n, pool = params
+        for _ in range(n):
+            date = rng.choice(pool) if rng.random() < 0.5 else rand_date(rng)
+            t = time_class(rng, rng.choice((0, 12, rng.randint(0, 23))), rng.randrange(4))
+            rt = None
+            if rng.random() < 0.3:
+                rt = shift(date, -rng.choice((rng.randint(-8, 8), rng.randint(-400, 400)))) + (rng.randint(0, 23), 0, 0)
+            f = rng.choice((127, 127, 15, 112, rng.randrange(128)))
+            L.append(mk(rng.choice(("en", "fr")), date, t, f, rng.random() < 0.6, rng.random() < 0.7, rt,
+                        rng.choice((16, 32)) | rng.randrange(16)))
     elif kind == "cal":
         mode, arg = params
         if mode == "range":
@@ -645,6 +747,39 @@ def gen_val(rng, kind):
     if kind == "dt":
         return {"dt": list(rand_date(rng)) + [rng.randint(0, 23), rng.randint(0, 59), rng.randint(0, 59)]}
     return {"x": rng.choice([1, 0, None, [1], 2.5])}
+
+
+def gen_hist(rng):
+    """well-formed option history on one DT with realizations in between"""
+    dt = list(rand_date(rng)) + list(time_class(rng, rng.choice((0, 12, rng.randint(0, 23))), rng.randrange(4)))
+    steps, via = [], []
+    if rng.random() < 0.8:
+        steps.append(["realize"])
+        via.append(rng.choice((0, 0, 1, 2)))
+    for _ in range(rng.randint(1, 4)):
+        r = rng.random()
+        if r < 0.2:
+            steps.append(["nat", rng.random() < 0.5])
+        else:
+            items = []
+            for k in rng.sample(FIELDS + ["det", "nat", "rtime"], rng.randint(1, 4)):
+                if k == "rtime":
+                    if rng.random() < 0.4:
+                        v = False
+                    else:
+                        d = shift(dt[:3], -rng.choice((rng.randint(-8, 8), rng.randint(-60, 60))))
+                        v = {"dt": list(d) + [rng.randint(0, 23), 0, 0]}
+                else:
+                    v = rng.random() < 0.5
+                items.append([k, v])
+            steps.append(["dOpt", items])
+        if rng.random() < 0.75:
+            steps.append(["realize"])
+            via.append(rng.choice((0, 0, 1, 1, 2)))
+    if steps[-1][0] != "realize":
+        steps.append(["realize"])
+        via.append(rng.choice((0, 1)))
+    return {"op": "hist", "lang": rng.choice(("en", "fr")), "lemma": {"dt": dt}, "steps": steps, "via": via}
 
 
 def gen_api(rng):
@@ -711,6 +846,10 @@ def build_blocks(ctx, deep=False):
             add("random", (12500, pool))
         for _ in range(4):
             add("api", 5000)
+        for _ in range(8):
+            add("hist", 5000)
+        for _ in range(8):
+            add("lang", (10000, pool))
         add("cal", ("range", ((1899, 12, 25), 36800)))
         add("cal", ("range", ((2000, 9, 25), 36700)))
         add("cal", ("range", ((1, 1, 1), 1500)))
@@ -735,6 +874,8 @@ def build_blocks(ctx, deep=False):
         for _ in range(8):
             add("random", (2000, pool))
         add("api", 3000)
+        add("hist", 2000)
+        add("lang", (4000, pool))
         add("cal", ("range", (rand_date(rng, 1900, 2090), 1500)))
         add("cal", ("range", ((rng.choice((1900, 2000, 2024, 2100)), 2, 20), 20)))
         add("cal", ("random", 2000))
@@ -774,7 +915,7 @@ def gen_block_ext(kind, params, seed):
 
 def run_lines(lines):
     """model answers of the driver for these lines (the model does not see `route`)"""
-    sent = [{k: v for k, v in l.items() if k != "route"} for l in lines]
+    sent = [{k: v for k, v in l.items() if k not in ("route", "via")} for l in lines]
     for attempt in range(6):
         try:
             return core.run_driver(sent, META["driver"])
@@ -810,7 +951,7 @@ def work(block):
         if trivial:
             out["trivial"] += 1
         else:
-            out["digests"].append(hashlib.md5(core.canon([{k: v for k, v in l.items() if k != "route"}, a]).encode()).digest())
+            out["digests"].append(hashlib.md5(core.canon([{k: v for k, v in l.items() if k not in ("route", "via")}, a]).encode()).digest())
         if len(out["samples"]) < 1:
             out["samples"].append((l, a))
         if op == "date":
@@ -827,6 +968,26 @@ def work(block):
                         out["fails"][sig] = {"n": 1, "input": c, "detail": dd[0] if dd else detail, "first_seen": l}
                     else:
                         e["n"] += 1
+        elif op == "hist":
+            dist[op] = dist.get(op, 0) + 1
+            dist["hist:realizations"] = dist.get("hist:realizations", 0) + len(a["outs"])
+            # direct oracle: each realization = that of a fresh DT with the option state of that moment
+            states = hist_states(l)
+            for i, (stt, got) in enumerate(zip(states, a["outs"])):
+                fresh = impl_date(stt)
+                fresh.pop("w", None)
+                if core.canon(fresh) != core.canon(got):
+                    via = ("standalone", "in-sentence", "other-language-current")[l["via"][i]]
+                    sig = "history lang=%s realization#%s %s" % (l["lang"], "1" if i == 0 else ">1", via)
+                    out["nfail"] += 1
+                    e = out["fails"].get(sig)
+                    detail = "realization %d of the history gives %s; a fresh DT with the options of that moment gives %s" % (
+                        i + 1, core.canon(got), core.canon(fresh))
+                    if e is None or len(core.canon(l)) < len(core.canon(e["input"])):
+                        out["fails"][sig] = {"n": (e["n"] if e else 0) + 1, "input": l, "detail": detail, "first_seen": l}
+                    else:
+                        e["n"] += 1
+                    break
         else:
             dist[op] = dist.get(op, 0) + 1
             if op == "api":
@@ -921,4 +1082,14 @@ def replay(path):
         if not ks:
             print("the property holds on this input")
         return 1 if ks else 0
+    if line["op"] == "hist":
+        bad = 0
+        for i, (stt, got) in enumerate(zip(hist_states(line), a["outs"])):
+            fresh = impl_date(stt)
+            fresh.pop("w", None)
+            ok = core.canon(fresh) == core.canon(got)
+            bad += not ok
+            print("realization %d: %s   fresh DT with the options of that moment: %s   %s"
+                  % (i + 1, core.canon(got), core.canon(fresh), "ok" if ok else "PROPERTY VIOLATED"))
+        return 1 if bad else 0
     return 0
